@@ -21,6 +21,8 @@ func buildCases(id string, g *Gen) []*Case {
 		return casesC13(g)
 	case "C14":
 		return casesC14(g)
+	case "C15":
+		return casesC15(g)
 	case "C16":
 		return casesC16(g)
 	case "C17":
